@@ -16,6 +16,7 @@
 
 use crate::anyhow_expr;
 use crate::anyhow_span;
+use crate::bail;
 use crate::bail_expr;
 use crate::bail_span;
 use crate::err_expr;
@@ -202,8 +203,16 @@ struct Replacement {
 }
 
 fn expand(exprs: &mut Vec<SExpr>, templates: &[Template], _lsp_hints: &mut LspHints) -> Result<()> {
+    // An expansion can produce further expansions. A template can be made to expand to itself,
+    // e.g. by passing `t!` as a parameter, and would then never stop expanding.
+    const MAX_EXPANSION_PASSES: usize = 100;
     let mut replacements: Vec<Replacement> = vec![];
-    loop {
+    for pass in 0.. {
+        if pass >= MAX_EXPANSION_PASSES {
+            bail!(
+                "template expansion did not finish after {MAX_EXPANSION_PASSES} passes; a template probably expands to itself"
+            );
+        }
         for (expr_index, expr) in exprs.iter_mut().enumerate() {
             match expr {
                 SExpr::Atom(_) => continue,
